@@ -17,6 +17,7 @@ def main(ctx):
     ix = SourceIndex(ctx.src)
     tensorapi.rule_who_may_enter_kernel(ctx, ix)
     tensorapi.rule_call_validation(ctx, ix)
+    tensorapi.rule_call_semantics(ctx, ix)
     tensorapi.rule_problem_validation(ctx, ix)
     ctx.rule("C10.axis-typing", "sizes are read in dimension order, formats compared level-wise", min_instances=2)
     axis.run_axis(ctx, ix, "C10.axis-typing", modules=["tensora.compile._tensor_method", "tensora.problem"])
